@@ -265,22 +265,14 @@ package lang
 //@   opt constant
 //@   ensures result != nil && result.Tag == ValueObj && result.Obj != nil && *result.Obj != nil
 
-// One level of the correspondence between a decoded Go value and the jqawk value built from it: same kind, same
-// scalar payload, same length.  NewValue ensures it of its result and of every element/member against the element/member
-// it was built from (in order); the whole-tree correspondence follows by structural induction (lemma L4).
-//@ spec func matchesGo(v Value, x any) bool = (x == nil ==> v.Tag == ValueNil) && (istype(x, bool) ==> v.Tag == ValueBool && v.Bool != nil && *v.Bool == as(x, bool)) && (istype(x, float64) ==> v.Tag == ValueNum && v.Num != nil && same(*v.Num, as(x, float64))) && (istype(x, string) ==> v.Tag == ValueStr && v.Str != nil && *v.Str == as(x, string)) && (istype(x, "[]any") ==> v.Tag == ValueArray && len(v.Array) == len(as(x, "[]any"))) && (istype(x, "map[string]any") ==> v.Tag == ValueObj)
 //@ func NewValue [C04,C05,C16]
 //@   requires isGoSrc(srcVal)
 //@   assume json-tree-elements: isGoSrc(arg0) @ NewValue
 //@   modifies nothing
 //@   loop 0 invariant len-tracks-index: rangeindex + 1 == len(arr) && rangeindex >= 0 - 1 && rangeindex + 1 <= len(val) && fresh(arr)
-//@   loop 0 invariant[C04] elements-so-far: forall k int :: 0 <= k && k <= rangeindex ==> arr[k] != nil && fresh(arr[k]) && matchesGo(arr[k].Value, val[k])
 //@   loop 1 invariant len-tracks-index: rangeindex + 1 == len(arr) && rangeindex >= 0 - 1 && rangeindex + 1 <= len(val) && fresh(arr)
 //@   loop 1 invariant[C16] strings-so-far: forall k int :: 0 <= k && k <= rangeindex ==> arr[k] != nil && fresh(arr[k]) && arr[k].Value.Tag == ValueStr && *arr[k].Value.Str == val[k]
 //@   loop 2 invariant own-map: obj != nil && fresh(obj)
-//@   loop 2 invariant[C04] visited-are-source-keys: forall key string :: {visited(key)} visited(key) ==> has(val, key) && has(obj, key)
-//@   loop 2 invariant[C04] members-so-far: forall key string :: {obj[key]} has(obj, key) ==> obj[key] != nil && fresh(obj[key]) && allocated(obj[key]) && matchesGo(obj[key].Value, val[key])
-//@   loop 2 invariant[C04] no-other-members: forall key string :: {has(obj, key)} has(obj, key) ==> visited(key)
 //@   ensures[C04] nil-is-null: srcVal == nil ==> result.Tag == ValueNil && result.ParentObj == nil && result.Str == nil && result.Num == nil
 //@   ensures[C04] bool: istype(srcVal, bool) ==> result.Tag == ValueBool && fresh(result.Bool) && *result.Bool == as(srcVal, bool)
 //@   ensures[C04] float: istype(srcVal, float64) ==> result.Tag == ValueNum && fresh(result.Num) && same(*result.Num, as(srcVal, float64))
@@ -289,10 +281,6 @@ package lang
 //@   ensures[C04] string: istype(srcVal, string) ==> result.Tag == ValueStr && fresh(result.Str) && *result.Str == as(srcVal, string)
 //@   ensures[C04] cells: istype(srcVal, "[]*Cell") ==> result.Tag == ValueArray && result.Array == as(srcVal, "[]*Cell")
 //@   ensures[C04] array-length: istype(srcVal, "[]any") ==> result.Tag == ValueArray && len(result.Array) == len(as(srcVal, "[]any"))
-//@   ensures[C04] matches-its-source: matchesGo(result, srcVal)
-//@   ensures[C04] array-elements-in-order: istype(srcVal, "[]any") ==> (forall k int :: 0 <= k && k < len(as(srcVal, "[]any")) ==> matchesGo(result.Array[k].Value, as(srcVal, "[]any")[k]))
-//@   ensures[C04] object-members: istype(srcVal, "map[string]any") ==> (forall key string :: {has(*result.Obj, key)} has(*result.Obj, key) == has(as(srcVal, "map[string]any"), key))
-//@   ensures[C04] object-members-match: istype(srcVal, "map[string]any") ==> (forall key string :: {has(*result.Obj, key)} has(*result.Obj, key) ==> matchesGo((*result.Obj)[key].Value, as(srcVal, "map[string]any")[key]))
 //@   ensures[C04] strings-length: istype(srcVal, "[]string") ==> result.Tag == ValueArray && len(result.Array) == len(as(srcVal, "[]string"))
 //@   ensures[C04,C16] strings-elements: istype(srcVal, "[]string") ==> (forall k int :: 0 <= k && k < len(as(srcVal, "[]string")) ==> result.Array[k].Value.Tag == ValueStr && *result.Array[k].Value.Str == as(srcVal, "[]string")[k])
 //@   ensures[C04] object: istype(srcVal, "map[string]any") ==> result.Tag == ValueObj && fresh(result.Obj)
@@ -1592,6 +1580,9 @@ package lang
 //@   ensures[C11] fault-latched: $faulted <==> err != nil
 //@   ensures[C01] errkind: err == nil || isPlainErr(err)
 
+// One level of the correspondence in the other direction (value -> Go value handed to encoding/json): same kind, same
+// scalar payload, same length; ensured of the result and of every element/member against the cell it was converted from.
+//@ spec func goMatches(x any, v Value) bool = (v.Tag == ValueStr ==> istype(x, string) && as(x, string) == *v.Str) && (v.Tag == ValueBool ==> istype(x, bool) && as(x, bool) == *v.Bool) && (v.Tag == ValueNum ==> istype(x, float64) && same(as(x, float64), *v.Num)) && (v.Tag == ValueArray ==> istype(x, "[]any") && len(as(x, "[]any")) == len(v.Array)) && (v.Tag == ValueObj ==> istype(x, "map[string]any")) && (v.Tag == ValueNil || v.Tag == ValueUnknown ==> x == nil)
 //@ func Value.toGoValueInterval [C04,C10]
 //@   requires v != nil && !$faulted
 //@   updates $faulted
@@ -1609,6 +1600,11 @@ package lang
 //@   ensures[C04] cycle-is-an-error: checkCircularReference && (exists k int :: 0 <= k && k < len(rootValues) && sameContainer(rootValues[k], v)) ==> err != nil
 //@   assert[C04] children-get-the-extended-path: arg2 && len(arg1) == len(rootValues) + 1 && arg1[len(rootValues)] == v && (forall k int :: 0 <= k && k < len(rootValues) ==> arg1[k] == rootValues[k]) @ Value.toGoValueInterval
 //@   loop 0 invariant no-ancestor-so-far: !$faulted && (forall k int :: 0 <= k && k <= rangeindex ==> !sameContainer(rootValues[k], v))
+//@   ensures[C04] result-matches-the-value: err == nil ==> goMatches(result0, *v)
+//@   ensures[C04] list-elements-in-order: v.Tag == ValueArray && err == nil ==> (forall k int :: 0 <= k && k < len(v.Array) ==> goMatches(as(result0, "[]any")[k], v.Array[k].Value))
+//@   ensures[C04] map-members-come-from-the-object: v.Tag == ValueObj && err == nil ==> (forall key string :: {has(as(result0, "map[string]any"), key)} has(as(result0, "map[string]any"), key) ==> has(*v.Obj, key) && goMatches(as(result0, "map[string]any")[key], (*v.Obj)[key].Value))
+//@   loop 1 invariant[C04] elements-so-far: forall k int :: 0 <= k && k <= rangeindex ==> goMatches(array[k], v.Array[k].Value)
+//@   loop 3 invariant[C04] members-so-far: forall key string :: {has(obj, key)} has(obj, key) ==> has(*v.Obj, key) && goMatches(obj[key], (*v.Obj)[key].Value)
 //@   loop 1 invariant building-list: !$faulted && fresh(array) && array != nil && len(array) == rangeindex + 1
 //@   loop 2 invariant collecting-keys: !$faulted && obj != nil && fresh(obj)
 //@   loop 3 invariant[C10] building-map-in-sorted-key-order: !$faulted && obj != nil && fresh(obj) && (forall i int, j int :: 0 <= i && i < j && j < len(keys) ==> scmpS(keys[i], keys[j]) <= 0)
